@@ -7,6 +7,7 @@ from oracle import refptr
 from oracle.refptr import PNode, PtrError, ENOENT, EINVAL
 
 PID = "C12"
+LONGKEYS = [b"k" * 300, b"a/" * 150, b"~0~1" * 64 + b"x", b"e\xc3\xa9" * 100]
 KEYS = [b"", b"/", b"~", b"~0", b"~1", b"~01", b"a/b", b"m~n", b"0", b"01", b"1", b"-", b"12", b"a", b"b", b"foo", b" ", b"k" * 40, b"~~", b"//", b"e\xc3\xa9", b"%s", b"%d"]
 
 
@@ -16,6 +17,9 @@ def gen_tree(rng, depth=0, budget=None):
     r = rng.random()
     if depth < 5 and budget[0] > 0 and r < (0.9 if depth == 0 else 0.45):
         n = rng.choice([0, 1, 2, 3, 4])
+        if rng.random() < 0.03:
+            n = rng.choice([11, 12, 101, 130])  # multi-digit indices
+            budget[0] = max(budget[0], n)
         if rng.random() < 0.5:
             out = ["["]
             for _ in range(n):
@@ -24,9 +28,9 @@ def gen_tree(rng, depth=0, budget=None):
         out = ["{"]
         seen = set()
         for _ in range(n):
-            k = rng.choice(KEYS)
+            k = rng.choice(KEYS) if rng.random() > 0.03 else rng.choice(LONGKEYS)
             if k in seen:
-                continue
+                k = b"m%d" % len(seen)
             seen.add(k)
             out += ["k" + k.hex()] + gen_tree(rng, depth + 1, budget)
         return out + ["}"]
